@@ -34,11 +34,23 @@ func Exec(s core.Schedule) *core.Outcome {
 	w.u.BusyPermille, w.u.DropPermille, w.u.TimeoutLostPermille, w.u.TimeoutAppliedPermille = cfg.BusyPermille, cfg.DropPermille, cfg.TOLostPermille, cfg.TOAppliedPermille
 	w.u.TimeoutLatePermille, w.u.TimeoutLateMaxMs = cfg.TOLatePermille, cfg.TOLateMaxMs
 	if os.Getenv("VERIF_LOG") == "2" || os.Getenv("VERIF_LOG") == "4" {
+		// kept in memory and printed when the run is over: writing to a file descriptor inside the run is a
+		// system call, and the run would not be the one without logging any more
+		var evlog []string
 		w.u.OnEvent = func(e string) {
-			fmt.Fprintf(os.Stderr, "EVT %s %s draws=%d\n", time.Now().Format("04:05.000"), e, core.RuntimeDraws())
+			evlog = append(evlog, fmt.Sprintf("EVT %s %s draws=%d", time.Now().Format("04:05.000"), e, core.RuntimeDraws()))
 		}
+		r.trace = func(f string, a ...any) {
+			evlog = append(evlog, fmt.Sprintf("TRC %s ", time.Now().Format("04:05.000"))+fmt.Sprintf(f, a...))
+		}
+		defer func() {
+			for _, l := range evlog {
+				fmt.Fprintln(os.Stderr, l)
+			}
+		}()
 	}
 	w.u.Yield = core.Yield
+	w.u.GoID = core.GoID
 	crashfs.Yield, simnet.Yield = core.Yield, core.Yield
 	w.u.FaultMinShard = 10000 // metadata shards are not subjected to proposal faults
 	w.u.ReadBusyPermille = cfg.ReadBusyPermille
